@@ -26,6 +26,19 @@ def gen(rnd, n, m, cls):
         return [rnd.randrange(50) for _ in range(n)], [rnd.randrange(50) for _ in range(min(m, 5))]
     if cls == 'binary':
         return [rnd.randrange(2) for _ in range(n)], [rnd.randrange(2) for _ in range(m)]
+    # position-relation classes: one list is the other plus / minus a block whose length sits near n/2, n/4, n/8 ...
+    # (the recursion halves the target, so index mix-ups in the guard show up exactly at such offsets)
+    if cls in ('dropprefix', 'addprefix', 'dropsuffix', 'addsuffix', 'window'):
+        k = rnd.choice([1, 1, 2, 3]); d = rnd.randrange(-8, 9)
+        a = max(1, n // (2 ** k) + d)
+        base = [rnd.randrange(50) for _ in range(n)]
+        blk = [100 + rnd.randrange(50) for _ in range(a)]
+        if cls == 'dropprefix': return base, blk + base          # source carries a extra leading elements
+        if cls == 'addprefix': return blk + base, base
+        if cls == 'dropsuffix': return base, base + blk
+        if cls == 'addsuffix': return base + blk, base
+        long = [rnd.randrange(50) for _ in range(n + a)]
+        return long[a:], long[:n]                                 # sliding window
     raise ValueError(cls)
 
 
@@ -41,6 +54,18 @@ def cases(tier, seed):
         for (n, m) in sizes_big:
             t, s = gen(rnd, n, m, cls)
             out.append((cls, t, s, False))
+    rel_small = [64, 200, 600] if tier == 'quick' else [64, 100, 200, 400, 600, 1000]
+    rel_big = [3000] if tier == 'quick' else [4000, 12000]
+    reps = 3 if tier == 'quick' else 8
+    for cls in ('dropprefix', 'addprefix', 'dropsuffix', 'addsuffix', 'window'):
+        for n in rel_small:
+            for _ in range(reps):
+                t, s = gen(rnd, n, n, cls)
+                out.append((cls, t, s, True))
+        for n in rel_big:
+            for _ in range(reps):
+                t, s = gen(rnd, n, n, cls)
+                out.append((cls, t, s, False))
     return out
 
 
@@ -66,12 +91,12 @@ def run(res, ctx):
     rc, mo = core.run_driver(model_lines, timeout=7200)
     model_cells = {}
     k = 0
-    for m in meta:
+    for mi, m in enumerate(meta):
         if m[4] and m[3] == 'hirsch':
             r = sx.parse(mo[k]); k += 1
-            model_cells[(m[0], m[1], m[2])] = (int(sx.field(r, 'cells')[0]), int(sx.field(r, 'script')[0]))
+            model_cells[mi] = (int(sx.field(r, 'cells')[0]), int(sx.field(r, 'script')[0]))
     table = []
-    for row, m in zip(rows, meta):
+    for mi, (row, m) in enumerate(zip(rows, meta)):
         cls, n, mm, which, small, _t, _s = m
         r = sx.parse(row[1])
         res.corr['evaluations'] += 1
@@ -92,7 +117,7 @@ def run(res, ctx):
             res.corr['impl_failures'].append({'request': f'(mem {which} n={n} m={mm} class={cls} seed={seed})',
                                               'what': f'peak heap growth {peak} B exceeds the linear bound {linear} B = {CELL} B x (cutoff+3)(n+m+1) cells + {REF} B x (n+m) + {ENTRY} B x {script} script entries + slack',
                                               'n': n, 'm': mm, 'class': cls, 'entry': which})
-        key = (cls, n, mm)
+        key = mi
         if key in model_cells and which == 'hirsch':
             cells, mscript = model_cells[key]
             rec['model_peak_cells'] = cells
@@ -109,7 +134,7 @@ def run(res, ctx):
     def search():
         return []
 
-    cov = {'explanation': 'Lean theorem C18.peak_cells_linear: the cost model (peak live table cells of the divide-and-conquer recursion, same split points as the model of the algorithm) is bounded by (cutoff+3)(n+m+1) for all lists; tie: a counting global allocator measures the peak heap growth of the REAL hirschberg and of diff() on a derived struct with an ordered_array_like field, for six content classes and sizes up to 6000 (quick) / 30000 (thorough), and requires it to stay below 16 B x that bound + 8 B x (n+m) + 128 B x script entries + slack; for sizes up to 1000 additionally below what the cost model predicts for that very input',
-           'rule': 'content classes random / equal / disjoint / shifted / one side short / binary alphabet; entry points hirschberg and derive-generated diff; distinct_nontrivial = distinct (class, n, m, entry point)',
+    cov = {'explanation': 'Lean theorem C18.peak_cells_linear: the cost model (peak live table cells of the divide-and-conquer recursion, same split points as the model of the algorithm) is bounded by (cutoff+3)(n+m+1) for all lists; tie: a counting global allocator measures the peak heap growth of the REAL hirschberg and of diff() on a derived struct with an ordered_array_like field, for eleven content classes and sizes up to 6000 (quick) / 30000 (thorough), and requires it to stay below 16 B x that bound + 8 B x (n+m) + 128 B x script entries + slack; for sizes up to 1000 additionally below what the cost model predicts for that very input',
+           'rule': 'content classes random / equal / disjoint / shifted / one side short / binary alphabet / block dropped or added at the front or back and sliding window with the block length within 8 of n/2, n/4, n/8, n/16; entry points hirschberg and derive-generated diff; distinct_nontrivial = distinct (class, n, m, entry point)',
            'obligations': res.proof['obligations'], 'discharged': res.proof['discharged']}
     return core.finish(res, LEVEL, cov, ASSUMPTIONS, proof_ok, search)
